@@ -111,6 +111,25 @@ def show_fact(f):
     return s if t else "not(" + s + ")"
 
 
+def facts_of_accessor(body, callee_path, truth):
+    """facts of the expression a straight-line `fn(&self) -> bool` of this crate returns (no branch, at most 4 blocks, no write to self)"""
+    prog = getattr(body.func, "prog", None)
+    g = prog.funcs.get(callee_path) if prog is not None else None
+    if g is None or g.body.argc != 1 or g.kind == "closure" or g.body.locals[0]["ty"] != "bool" or g.body.names.get(1) != "self" or \
+            body.names.get(1) != "self" or not g.body.locals[1]["ty"].startswith("&") or g.body.locals[1]["ty"].startswith("&mut"):
+        return []
+    blocks = [b for b in g.body.blocks if not b.cleanup]
+    if len(blocks) > 4 or any(b.term.k == "switch" for b in blocks):
+        return []
+    try:
+        e = X(g.body).ret_expr()
+    except Exception:
+        return []
+    if e[0] == "opaque":
+        return []
+    return facts_of(e, truth)
+
+
 class Flow:
     """Edge-split CFG of one body with atoms on switch edges."""
 
@@ -420,6 +439,24 @@ class Flow:
                 if txt not in seen:
                     seen.add(txt)
                     out.append((b, t))
+        # a boolean accessor of the same receiver (`if self.need_transfer_fdt()` for `if !self.fdt_transfer_queue.is_empty()`): when the callee is
+        # a straight-line function of `&self` only, its returned expression is a fact here too (same `self`, so the text needs no substitution)
+        for (a, t) in list(out):
+            if a[0] != "true":
+                continue
+            c = a[1]
+            while c[0] in ("ref", "deref"):
+                c = c[1]
+            if c[0] == "call" and len(c[2]) == 1:
+                r = c[2][0]
+                while r[0] in ("ref", "deref"):
+                    r = r[1]
+                if r[0] == "var" and r[1] == "self" and not r[2]:
+                    for f2 in facts_of_accessor(self.body, c[1], t):
+                        txt = show_fact(f2)
+                        if txt not in seen:
+                            seen.add(txt)
+                            out.append(f2)
         self._efx[n] = out
         return out
 
@@ -588,7 +625,7 @@ class Slicer:
                         if e[0] == "var":
                             mutref_tmp[s.lhs[0]] = (e[1], e[2])
             for blk in b.blocks:
-                if blk.cleanup:
+                if blk.cleanup or blk.cloned_from is not None:
                     continue
                 for s in blk.stmts:
                     if s.k == "assign":
@@ -711,6 +748,19 @@ class Slicer:
                         return inner
                     return ("proj", inner, e[2]) + ((e[3],) if len(e) > 3 else ())
             return e
+        if e[0] == "proj" and len(e) > 2 and e[2] in ("@Continue.0", "@Ok.0", "@Some.0"):
+            # the success payload of a value that is assigned in several places (the result slot of an inlined helper, tested with `?` or a
+            # `match`): when every success definition wraps the same expression, that expression is the payload
+            src = e[1]
+            if e[2] == "@Continue.0" and src[0] == "call" and src[1].replace(" ", "").endswith("Try>::branch") and len(src[2]) == 1:
+                src = src[2][0]
+            while src[0] in ("ref", "deref"):
+                src = src[1]
+            pay = self._success_payloads(src, 3, stop)
+            if pay:
+                shown = set(show(z, 600) for z in pay)
+                if len(shown) == 1:
+                    return pay[0]
         out = []
         for x in e:
             if isinstance(x, tuple) and x and isinstance(x[0], str):
@@ -720,6 +770,40 @@ class Slicer:
             else:
                 out.append(x)
         return tuple(out)
+
+
+def _success_payloads_impl(self, src, depth, stop=()):
+    """expanded payload expressions of the Ok(..)/Some(..) definitions of a multi-definition local (failure definitions are skipped); None when
+    some definition is neither"""
+    b = self.body
+    if src[0] != "tmp" or src[2] or depth <= 0:
+        return None
+    out = []
+    ds = [d for d in b.defs().get(src[1], []) if d[2] in ("whole", "call")]
+    if len(ds) < 2:
+        return None
+    for (bb, idx, kind) in ds:
+        if idx == "term":
+            t = b.blocks[bb].term
+            if (t.callee_path() or "").endswith("::from_residual"):
+                continue
+            return None
+        rv = b.blocks[bb].stmts[idx].rv
+        if rv.k == "aggr" and rv.j.get("ak") == "adt" and rv.j.get("variant") in ("Ok", "Some") and len(rv.ops) == 1:
+            out.append(self.expand(self.x.operand(rv.ops[0]), 40, stop))
+        elif rv.k == "aggr" and rv.j.get("ak") == "adt" and rv.j.get("variant") in ("Err", "None"):
+            continue
+        elif rv.k == "use" and rv.ops[0].place is not None and not rv.ops[0].place[1]:
+            inner = self._success_payloads(("tmp", rv.ops[0].place[0], ""), depth - 1, stop)
+            if inner is None:
+                return None
+            out.extend(inner)
+        else:
+            return None
+    return out
+
+
+Slicer._success_payloads = _success_payloads_impl
 
 
 def strip_casts(e):
